@@ -38,6 +38,10 @@ CHECKS = {
          "No signing-path instruction overwrites, element-stores into or relabels an object owned by the caller's key data (one declared exception); the ECDSA k/gamma and EdDSA r_i nonces are stored once per session directly from GetRandomPositiveInt(round.Rand(), N); both save-data types are closed under encoding/json (exported fields or symmetric custom codecs with identical auxiliary types); the subset builder copies every per-party slice at one (j, savedIdx) pair and every other field group whole, into slices of its own.",
          "§4.20",
          "Not decided: equality of results after a JSON reload, nonce distinctness as a probability statement."),
+ "C05": ("must-verify / must-branch / blame-index rules: interprocedural data dependence from message accessors to verifier operands, greatest-fixpoint must-abort regions over the CFG with abort actions (error return, error/false send, culprit record), verdict flow through channels, result arrays and completion callbacks, index-origin resolution of culprits and of the message elements a guard reads (loops, closures, captured variables), session-context index classes",
+         "Every proof, de-commitment and share carried by a message flows into its verifier in a round that reads it; every verifier verdict controls a branch whose failing side cannot reach an exit without an abort action, and recorded culprits reach a returned error; every abort site that names parties names the sender of the message its guard reads in the same iteration (nobody/self only for aggregate or local failures), and asynchronously run closures do not read variables the spawning loop reassigns; provers and verifiers receive ssid||index of the same party.",
+         "§4.5",
+         "Not decided: sufficiency of the checks performed (soundness of the proofs, protocol-level argument), equality of outputs across honest parties, blame where the guard reads values assembled from several peers by an earlier loop (classed aggregate: any of self/nobody/current position accepted)."),
  "C06": ("panic-site discharge over go/ssa: module-wide origin analysis (WIRE/RAND/HASH/KEY/CONST with field summaries, own-key and trusted key-data paths), dominating-guard facts on symbolic terms, helper preconditions lifted to their call sites, length-origin and element-length invariants for lists, use-before-error paths, assertion/store table agreement, fork-join and channel-capacity rule",
          "Every reachable instance of seven repository-specific crash classes is discharged on all paths: stored messages are validated and index-bounded by their own array's length class; peer-influenced scalars of the panicking curve wrappers are guarded non-zero mod q; possibly-nil ModInverse/negative-power results are nil-checked or their operand proven a unit; Jacobi/Mod/Div/Exp moduli that a peer chooses are guarded (odd, positive / non-zero) in the verifier or at every call site of the helper; constant and loop indices into lists whose length the sender picks are covered by an established length; results of fallible constructors are not used before the error is branched on; unchecked type assertions name the filed type; explicit panics form a reasoned table; goroutines are joined and result channels have room for every send.",
          "§4.6",
